@@ -670,7 +670,9 @@ func (fc *FnCtx) inlineCallee(st *State, callee *types.Func, recv *Val, args []V
 		fc.fail(pos, "inline depth exceeded at %s", callee.FullName())
 	}
 	fc.inlineDepth++
-	defer func() { fc.inlineDepth-- }()
+	savedOld := fc.inlineOld
+	fc.inlineOld = st.clone()
+	defer func() { fc.inlineDepth--; fc.inlineOld = savedOld }()
 	sig := callee.Type().(*types.Signature)
 	if recv != nil && decl.Recv != nil && len(decl.Recv.List) > 0 && len(decl.Recv.List[0].Names) > 0 {
 		if o := fc.info().Defs[decl.Recv.List[0].Names[0]]; o != nil {
